@@ -386,3 +386,39 @@ def default_registration_order(ctx):
                % (op, [src(c.args[0]) for c, _ in regs]),
                '' if not late else 'registered after a predicate type: %s -- their subclasses match the predicate first' % late)
     ctx.floor(3)
+
+
+@rule('C14.14')
+def object_keys_predicate_is_duck_typed(ctx):
+    """which values have attribute-style children ('*' over an object) is decided by
+    _ObjStyleKeysMeta.__instancecheck__; it asks for exactly what the keys handler uses --
+    a ``__dict__`` with a ``keys`` -- and for no concrete mapping class: type.__dict__ is a
+    mappingproxy, so a class test would leave every class object without children"""
+    u = ctx.unit('core._ObjStyleKeysMeta.__instancecheck__')
+    cfg = ctx.cfg(u)
+    obj = u.params[1]
+    rets = [r for r in u.own_nodes() if isinstance(r, ast.Return) and r.value is not None]
+    ctx.require(rets, '_ObjStyleKeysMeta.__instancecheck__: no return')
+    narrowing = [norm(c) for c in calls_in(u) if is_name(c.func) and c.func.id in ('isinstance', 'issubclass', 'type')]
+    ctx.ob(not narrowing, u, 'no concrete-class test decides who has object-style keys',
+           '' if not narrowing else '%s: an object whose __dict__ is a mapping but not that class (every class: mappingproxy) has no children' % narrowing)
+    import itertools
+    from ..util import boolean_function, Undecidable
+    D, K = "hasattr(%s, '__dict__')" % obj, "hasattr(%s.__dict__, 'keys')" % obj
+    try:
+        atoms, f = boolean_function(u)
+    except Undecidable as e:
+        raise AnalysisError('_ObjStyleKeysMeta.__instancecheck__: not a decidable predicate (%s)' % e)
+    extra = sorted(set(atoms) - {D, K})
+    ok = not extra and set(atoms) == {D, K}
+    if ok:
+        for vals in itertools.product((False, True), repeat=2):
+            asg = dict(zip((D, K), vals))
+            ok = ok and f(asg) == (asg[D] and asg[K])
+    ctx.ob(ok, u, 'the predicate is: has a __dict__ and that __dict__ has keys (conditions: %s)' % atoms,
+           '' if ok else 'further / other conditions: %s' % (extra or atoms))
+    ku = ctx.unit('core._ObjStyleKeys.get_keys')
+    kr = [r for r in ku.own_nodes() if isinstance(r, ast.Return) and r.value is not None]
+    ok = len(kr) == 1 and norm(deref(ctx.cfg(ku), ctx.cfg(ku).node_of(kr[0]), kr[0].value)) == '%s.__dict__.keys()' % ku.params[0]
+    ctx.ob(ok, ku, 'the keys handler uses exactly that: %s' % [norm(r) for r in kr])
+    ctx.floor(3)
